@@ -568,3 +568,10 @@ def r13(rr, repo):
     for h in closes:
         eph, sync, n = close_drop_coverage(h)
         rr.ob('when a synchronized source closes, a half received set of it is dropped', sync, za.mod, h, witness=f'new_recv() calls in the CLOSE handler: {n}; synchronized sources covered: {sync}', key='sync-close-drops-partial')
+
+
+@rule('C02.R14', "what is delivered under an id is what was published last under it: a second message for a topic the set already holds (the same id reaches a consumer twice only across publisher runs) replaces "
+                 "the stored frame, it is not dropped as a retransmission (shares C01.R11)")
+def r14(rr, repo):
+    from .c01 import r11 as c01r11
+    c01r11(rr, repo)
